@@ -7,6 +7,7 @@
 #define OCC_ORDER memory_order_seq_cst
 #endif
 #include "fiber_mutex.h"
+#include "fiber_cond.h"
 
 #define MAXM 3
 typedef struct {
@@ -16,12 +17,19 @@ typedef struct {
   long pa, pb;
   uint64_t order_hash;
   long sections;
+  // 'deferred' trials: some owners give the mutex up through fiber_cond_wait (released by the kernel thread that completes the
+  // owner's context switch, not by the owner). active/parked are only touched under mu.
+  fiber_cond_t cv;
+  int parked;
   char pad[64];
 } mx_t;
 static mx_t mx[MAXM];
-static int nm, iters, trial;
+static int nm, iters, trial, deferred;
+// deferred trials: workers still iterating / workers parked in fiber_cond_wait (any mutex). A worker parks only if that leaves another
+// iterating worker unparked; whoever stops iterating broadcasts on every mutex afterwards, so a parked worker is always owed a wake-up.
+static _Atomic int iterating_total, parked_total;
 static _Atomic long total_sections, trylock_ok, trylock_fail;
-static vp_counter_t *c_sections, *c_try_ok, *c_try_fail, *c_yield_inside, *c_sleep_inside, *c_trials, *c_contended;
+static vp_counter_t *c_deferred, *c_sections, *c_try_ok, *c_try_fail, *c_yield_inside, *c_sleep_inside, *c_trials, *c_contended;
 
 __attribute__((noinline)) static void vp_payload_section(mx_t* m, int id) {
   if (m->pa != m->pb)
@@ -117,6 +125,59 @@ static void mutex_periodic(void) {
   streak = 0;
 }
 
+// hand-off trials: pairs (C, L) on their own mutex+cond. Every round C takes the mutex, lets L run into it (L is then the only
+// announced waiter), and gives the mutex up inside fiber_cond_wait, i.e. through the unlock that the kernel thread performs while it
+// completes C's context switch and that cannot itself switch contexts. L must get the mutex; it signals C and unlocks. Hundreds of
+// rounds per pair so that every per-thread counter of the implementation crosses its small powers of two.
+typedef struct {
+  fiber_mutex_t mu;
+  fiber_cond_t cv;
+  _Atomic int turn, l_trying, occ;
+  long rounds, c_woken;
+  char pad[64];
+} ho_t;
+static ho_t ho[8];
+static void* handoff_c(void* a) {
+  fb_slot_t* s = (fb_slot_t*)a;
+  ho_t* h = &ho[s->c];
+  long r;
+  for (r = 0; r < h->rounds; ++r) {
+    FB_BLOCKING(s, "C03 fiber_mutex_lock (hand-off pair)", fiber_mutex_lock(&h->mu));
+    if (atomic_fetch_add(&h->occ, 1) != 0) vp_violation("C03", "mutex:two-owners", "trial %d (hand-off): C of pair %ld acquired the mutex while L is inside", trial, s->c);
+    atomic_store(&h->turn, 1);
+    int spins = 0;
+    while (!atomic_load(&h->l_trying) && ++spins < 200) fiber_yield();
+    if (vp_rand(&s->rng) & 1) fiber_yield();  // usually L is now suspended as the announced waiter; sometimes it is still on its way
+    atomic_fetch_sub(&h->occ, 1);
+    FB_BLOCKING(s, "C03 fiber_cond_wait (mutex handed over by the deferred unlock, reacquired on return)", fiber_cond_wait(&h->cv, &h->mu));
+    if (atomic_fetch_add(&h->occ, 1) != 0) vp_violation("C03", "mutex:two-owners", "trial %d (hand-off): C of pair %ld returned from fiber_cond_wait while L is inside", trial, s->c);
+    atomic_fetch_sub(&h->occ, 1);
+    FB_BLOCKING(s, "C03 fiber_mutex_unlock", fiber_mutex_unlock(&h->mu));
+    vp_add(c_deferred, 1);
+    vp_add(c_sections, 1);
+  }
+  return NULL;
+}
+static void* handoff_l(void* a) {
+  fb_slot_t* s = (fb_slot_t*)a;
+  ho_t* h = &ho[s->c];
+  long r;
+  for (r = 0; r < h->rounds; ++r) {
+    while (atomic_load(&h->turn) != 1) fiber_yield();
+    atomic_store(&h->l_trying, 1);
+    s->a = 0;
+    FB_BLOCKING(s, "C03 fiber_mutex_lock (hand-off from the deferred unlock)", fiber_mutex_lock(&h->mu));
+    if (atomic_fetch_add(&h->occ, 1) != 0) vp_violation("C03", "mutex:two-owners", "trial %d (hand-off): L of pair %ld acquired the mutex while C is inside", trial, s->c);
+    atomic_store(&h->l_trying, 0);
+    atomic_store(&h->turn, 0);
+    fiber_cond_signal(&h->cv);
+    atomic_fetch_sub(&h->occ, 1);
+    FB_BLOCKING(s, "C03 fiber_mutex_unlock", fiber_mutex_unlock(&h->mu));
+    vp_add(c_sections, 1);
+  }
+  return NULL;
+}
+
 static void* mutex_fiber(void* a) {
   fb_slot_t* s = (fb_slot_t*)a;
   int i;
@@ -154,11 +215,48 @@ static void* mutex_fiber(void* a) {
       fb_spin(&s->rng, 40);
     }
     vp_payload_section_end(m);
+    if (deferred) {
+      int park = 0;
+      if ((vp_rand(&s->rng) & 3) == 0) {
+        if (atomic_fetch_add(&parked_total, 1) + 1 <= atomic_load(&iterating_total) - 1) park = 1;
+        else atomic_fetch_sub(&parked_total, 1);
+      }
+      if (park) {
+        m->parked++;
+        atomic_fetch_sub_explicit(&m->occ, 1, OCC_ORDER);
+        vp_add(c_deferred, 1);
+        FB_BLOCKING(s, "C03 fiber_cond_wait (mutex handed over by the deferred unlock, reacquired on return)", fiber_cond_wait(&m->cv, &m->mu));
+        const int p2 = atomic_fetch_add_explicit(&m->occ, 1, OCC_ORDER);
+        if (p2 != 0)
+          vp_violation("C03", "mutex:two-owners", "trial %d: fiber %d came back from fiber_cond_wait owning mutex %d while %d other fiber(s) are inside", trial, s->id,
+                       (int)(m - mx), p2);
+        m->parked--;
+        atomic_fetch_sub(&parked_total, 1);
+        vp_payload_section(m, s->id);
+        vp_payload_section_end(m);
+        m->sections--;  // the second half of a split section is not a section of its own
+        m->pa--;
+        m->pb--;
+      } else if (m->parked > 0) {
+        fiber_cond_signal(&m->cv);
+      }
+    }
     atomic_fetch_sub_explicit(&m->occ, 1, OCC_ORDER);
     FB_BLOCKING(s, "C03 fiber_mutex_unlock", fiber_mutex_unlock(&m->mu));
     atomic_fetch_add(&total_sections, 1);
     vp_add(c_sections, 1);
     if ((vp_rand(&s->rng) & 7) == 0) fiber_yield();
+  }
+  if (deferred) {
+    int k;
+    atomic_fetch_sub(&iterating_total, 1);
+    for (k = 0; k < nm; ++k) {
+      mx_t* m = &mx[k];
+      s->a = k;
+      FB_BLOCKING(s, "C03 fiber_mutex_lock", fiber_mutex_lock(&m->mu));
+      fiber_cond_broadcast(&m->cv);
+      FB_BLOCKING(s, "C03 fiber_mutex_unlock", fiber_mutex_unlock(&m->mu));
+    }
   }
   return NULL;
 }
@@ -175,6 +273,7 @@ void* sy_mutex_root(void* x) {
   c_sleep_inside = vp_counter("mutex_sleep_inside_section");
   c_trials = vp_counter("mutex_trials");
   c_contended = vp_counter("mutex_contended_acquisitions");
+  c_deferred = vp_counter("mutex_released_by_deferred_unlock");
   uint64_t rng = vp_mix(vp_cfg.seed, 303);
   vp_set_periodic(mutex_periodic);
   for (trial = 0; trial < trials; ++trial) {
@@ -189,7 +288,8 @@ void* sy_mutex_root(void* x) {
     fiber_manager_all_stats(&st0);
     fb_slots_reset();
     fb_slot_t* sl[256];
-    const int hammer = (trial % 3) == 2;
+    const int hammer = (trial % 4) == 2, handoff = (trial % 4) == 3;
+    deferred = 0;
     if (hammer) {
       nm = 1;
       const int L = 2 + (int)(vp_rand(&rng) % 12), T = 1 + (int)(vp_rand(&rng) % 6);
@@ -197,13 +297,45 @@ void* sy_mutex_root(void* x) {
       for (i = 0; i < L; ++i) sl[i] = fb_spawn(hammer_locker, NULL);
       for (; i < L + T; ++i) sl[i] = fb_spawn(hammer_trylocker, NULL);
       vp_count("mutex_hammer_trials", 1);
+    } else if (handoff) {
+      nm = 0;
+      const int P = 1 + (int)(vp_rand(&rng) % 4);
+      int k;
+      for (k = 0; k < P; ++k) {
+        memset(&ho[k], 0, sizeof(ho[k]));
+        fiber_mutex_init(&ho[k].mu);
+        fiber_cond_init(&ho[k].cv);
+        ho[k].rounds = 300 + (long)(vp_rand(&rng) % 500);
+      }
+      for (i = 0, k = 0; k < P; ++k) {
+        sl[i++] = fb_spawn(handoff_c, (void*)(intptr_t)k);
+        sl[i++] = fb_spawn(handoff_l, (void*)(intptr_t)k);
+      }
+      vp_count("mutex_handoff_trials", 1);
     } else {
+      deferred = (trial % 4) == 1;
+      int k;
+      for (k = 0; k < nm; ++k) {
+        fiber_cond_init(&mx[k].cv);
+      }
+      atomic_store(&iterating_total, F < 256 ? F : 256);
+      atomic_store(&parked_total, 0);
       for (i = 0; i < F && i < 256; ++i) sl[i] = fb_spawn(mutex_fiber, NULL);
     }
     atomic_store(&mutex_phase_active, 1);
     fb_join_all(sl, i);
     atomic_store(&mutex_phase_active, 0);
     fiber_manager_all_stats(&st1);
+    if (handoff) {
+      int k;
+      for (k = 0; k < 8 && ho[k].rounds; ++k) {
+        if (atomic_load(&ho[k].mu.counter) != 1)
+          vp_violation("C03", "mutex:not-free-at-end", "trial %d (hand-off): pair %d finished but the mutex counter is %d", trial, k, atomic_load(&ho[k].mu.counter));
+        fiber_cond_destroy(&ho[k].cv);
+        fiber_mutex_destroy(&ho[k].mu);
+        ho[k].rounds = 0;
+      }
+    }
     long sum = 0;
     uint64_t sig = (uint64_t)F * 131 + (uint64_t)nm;
     for (i = 0; i < nm; ++i) {
@@ -214,9 +346,10 @@ void* sy_mutex_root(void* x) {
       if (atomic_load(&mx[i].mu.counter) != 1)
         vp_violation("C03", "mutex:not-free-at-end", "trial %d: all fibers finished but mutex %d counter is %d (expected 1)", trial, i,
                      atomic_load(&mx[i].mu.counter));
+      if (!hammer) fiber_cond_destroy(&mx[i].cv);
       fiber_mutex_destroy(&mx[i].mu);
     }
-    if (!hammer && sum != (long)F * iters)
+    if (!hammer && !handoff && sum != (long)F * iters)
       vp_violation("C03", "mutex:lost-update", "trial %d: %ld sections counted under the mutexes, expected %ld", trial, sum, (long)F * iters);
     const long contended = (long)(st1.lock_contention_count - st0.lock_contention_count);
     vp_add(c_contended, contended);
